@@ -224,6 +224,99 @@ def judge_refs(t, vd):
                 t.violation("addaction-list", dict(case, widget=w, got=got))
 
 
+# --------------------------------------------------------------------------- cross-reference matrix
+# every kind of referenced object x every kind of reference site (+ every pair of targets in one
+# document): if the document is accepted, each ui_-><name> of the header and each name-valued
+# reference of the .ui must denote exactly one declared object.
+
+XTARGETS = [
+    # (tag, object text with id X, property read through it)
+    ("widget", "QLineEdit { id: X }", "X.text"),
+    ("layout", "QWidget { QVBoxLayout { id: X } }", "X.spacing"),
+    ("layout-child", "QWidget { QVBoxLayout { QLabel { id: X } } }", "X.text"),
+    ("spacer", "QWidget { QVBoxLayout { QSpacerItem { id: X } } }", "X.orientation"),
+    ("action", "QAction { id: X; text: \"a\" }", "X.text"),
+    ("action-plain", "QAction { id: X }", "X.text"),
+    ("separator-static", "QAction { id: X; separator: true }", "X.text"),
+    ("separator-with-text", "QAction { id: X; separator: true; text: \"s\" }", "X.text"),
+    ("separator-false", "QAction { id: X; separator: false }", "X.text"),
+    ("menu", "QMenu { id: X }", "X.title"),
+    ("tab-page", "QTabWidget { QWidget { id: X; QTabWidget.title: \"t\" } }", "X.toolTip"),
+    ("custom", "Widget1 { id: X }", "X.toolTip"),
+    ("in-menu-action", "QMenu { QAction { id: X } }", "X.text"),
+    ("in-menu-separator", "QMenu { QAction { id: X; separator: true } }", "X.text"),
+]
+XSITES = [
+    ("binding-read", lambda x, rd: f"QLabel {{ text: {rd} as string }}" if False else f"QLabel {{ toolTip: {rd.replace('X', x)} }}"),
+    ("binding-read-mixed", lambda x, rd: f"QLabel {{ toolTip: cb.checked ? {rd.replace('X', x)} : \"n\" }}"),
+    ("handler-read", lambda x, rd: f"QPushButton {{ onClicked: sink.toolTip = {rd.replace('X', x)} }}"),
+    ("handler-write", lambda x, rd: f"QPushButton {{ onClicked: {{ {rd.replace('X', x)} = sink.toolTip }} }}"),
+    ("pointer-compare", lambda x, rd: f"QLabel {{ visible: {x} != null }}"),
+    ("buddy", lambda x, rd: f"QLabel {{ buddy: {x} }}"),
+    ("buddy-dynamic", lambda x, rd: f"QLabel {{ buddy: cb.checked ? {x} : sink }}"),
+    ("actions-list", lambda x, rd: f"QToolButton {{ actions: [{x}] }}"),
+    ("menu-action", lambda x, rd: f"QToolButton {{ actions: [{x}.menuAction()] }}"),
+]
+
+
+def xref_docs():
+    head = "import qmluic.QtWidgets\nQWidget { id: root\n  QCheckBox { id: cb }\n  QLabel { id: sink }\n"
+    for (ttag, tobj, rd) in XTARGETS:
+        for (stag, site) in XSITES:
+            yield (f"xref/{ttag}/{stag}", [ttag], head + "  " + tobj.replace("X", "t0") + "\n  " + site("t0", rd) + "\n}\n")
+    # pairs of targets, one read site each (a dropped object must not disturb a sibling's reference)
+    for (a, b) in itertools.permutations(XTARGETS, 2):
+        src = head + "  " + a[1].replace("X", "t0") + "\n  " + b[1].replace("X", "t1") + "\n  " + \
+            XSITES[0][1]("t0", a[2]) + "\n  " + XSITES[2][1]("t1", b[2]) + "\n}\n"
+        yield (f"xref2/{a[0]}+{b[0]}", [a[0], b[0]], src)
+
+
+HDR_REF_RE = re.compile(r"this->ui_->(\w+)")
+
+
+def judge_xref(t, vd, cid, ttags, src):
+    r = vd.job({"id": cid, "source": src, "modes": ["generate"]})
+    if r.get("crashed") or r.get("timeout") or "modes" not in r or r["modes"]["generate"].get("status") == "panic":
+        t.lost.append({"id": cid})
+        return
+    g = r["modes"]["generate"]
+    t.inc("documents")
+    t.inc("xref_documents")
+    t.distinct.add(cid)
+    case = {"id": cid, "xref": ttags, "source": src}
+    if r.get("has_syntax_error"):
+        raise vc.MachineryError("xref document does not parse:\n" + src)
+    if not vc.accepted(g, False):
+        t.inc("xref_rejected")      # ill-typed combination (buddy: action, ...): nothing to resolve
+        return
+    t.inc("xref_accepted")
+    ui = uiread.parse(g["ui"])
+    named = uiread.named_objects(ui)
+    names = [n for (_k, n, _c, _e) in named]
+    if len(set(names)) != len(names):
+        t.violation("duplicate-name:reference-doc", dict(case, names=names))
+    for name in sorted(set(HDR_REF_RE.findall(g["header"] or ""))):
+        t.inc("references_checked")
+        if names.count(name) != 1:
+            # which target vanished?
+            feat = "other"
+            for k, tt in enumerate(ttags):
+                if name == f"t{k}":
+                    feat = tt
+            t.violation(f"header-reference-to-undeclared-object:{feat}", dict(case, name=name, declared=names))
+    for (_k, n, _c, el) in named:
+        for e in el.findall("property"):
+            if e.attrs.get("name") == "buddy":
+                t.inc("references_checked")
+                if names.count(e.children[0].text) != 1:
+                    t.violation("buddy-does-not-resolve", dict(case, buddy=e.children[0].text))
+        for a in el.findall("addaction"):
+            t.inc("references_checked")
+            an = a.attrs.get("name")
+            if an != "separator" and names.count(an) != 1:
+                t.violation("addaction-does-not-resolve", dict(case, name=an))
+
+
 def sequences(tier):
     for n in range(0, 4):
         for seq in itertools.product(list(itertools.product(CLASSES, IDS)), repeat=n):
@@ -258,6 +351,9 @@ def shard_work(shard, nshards, payload):
             t.sample({"seq": [list(x) for x in seq], "nest": nest})
     if shard == 0:
         judge_refs(t, vd)
+    for k, (cid, ttags, src) in enumerate(xref_docs()):
+        if k % nshards == shard:
+            judge_xref(t, vd, cid, ttags, src)
     return t
 
 
@@ -275,6 +371,9 @@ def main(tier, t0):
         "expected_accept": c.get("expected_accept", 0), "expected_reject": c.get("expected_reject", 0),
         "objects_checked": c.get("objects_checked", 0),
         "references_checked": c.get("references_checked", 0),
+        "cross_reference_matrix": {"documents": c.get("xref_documents", 0), "accepted": c.get("xref_accepted", 0),
+                                   "rejected_as_ill_typed": c.get("xref_rejected", 0),
+                                   "targets": [x[0] for x in XTARGETS], "sites": [x[0] for x in XSITES]},
     }
     assumptions = [
         "generated name = variable_name_for_type(class) + optional decimal suffix (rule restated in the check)",
@@ -291,7 +390,9 @@ def replay(path):
     case = r["case"]
     vd = vc.VDrive()
     t = vc.Tally()
-    if "seq" in case:
+    if "xref" in case:
+        judge_xref(t, vd, case["id"], case["xref"], case["source"])
+    elif "seq" in case:
         judge(t, vd, 0, [tuple(x) for x in case["seq"]], case["nest"])
     else:
         judge_refs(t, vd)
